@@ -5,7 +5,12 @@ implementation-side oracles of harness/engine_trace.py (Observer) restricted to 
 Pause clause over the execution tree ("after a pause request is acknowledged the workflow and its running sub-workflows
 are PAUSED"): harness/engine_stoptree.py with coq/Model/StopTree.v (module Tree of Properties/C10.v) - pause / resume on the
 root or a nested execution of call chains of depth 0-3, mixed with stops; correspondence of pause / resume requests with
-the model, oracle: right after an acknowledged pause the execution and every unfinished execution below it is PAUSED.
+the model - also of the scheduled job that reports the pause / resume of one item's sub-workflow to its with-items parent
+task (notify_at) -, oracle: right after an acknowledged pause the execution and every unfinished execution below it is
+PAUSED, and whenever an execution BECOMES PAUSED (request or upward report) no sub-workflow below it is left RUNNING.
+Seeded change "_pause_subworkflows skips task executions that are not RUNNING" (a PAUSED with-items task with a RUNNING
+sibling item): VIOLATION (pause:running-sub-workflow-below-newly-paused-workflow:with-items-task, pause:sub-workflow-not-PAUSED,
+model disagreements on notify_at / pause_at); it was missed before the upward report was observed and modelled.
 
 Self-test (scratch worktrees, VERIF_REPO): reverting any of the engine fix commits recorded in
 known_findings.json makes this or a sibling engine check report a VIOLATION (see DESIGN.md appendix).
@@ -17,7 +22,7 @@ GEN = ['States']
 PROPS = ['C10'] + ['C01']
 
 MANIFEST = {
-    'level_text': 'Coq theorems (all programs/states/events/histories): no task execution is created while PAUSED by any event except resume, the pause is held, results are still recorded and final; a join-free run with pauses/resumes/stops anywhere never hangs; "resume reaches the same result as the unpaused run" is proved for join-free forward command-free definitions with constant guards (same executions per task, same final task states, same workflow state; C10_pause_resume_same_result_simple) and not proved beyond that class nor for the output, the pause clause over the execution tree is proved on Model/StopTree.v (every tree / address / state: closed form of the pause walk - exactly the RUNNING executions of the subtree become PAUSED, also below finished ones; after an accepted pause at any address the subtree of that execution is its paused form; finished executions are never touched) and tied to the engine by correspondence of every pause / resume request on generated call chains (depth 0-3, plain / with-items) plus the oracle "acknowledged => the execution and all unfinished executions below it PAUSED"; the other sub-workflow clauses are not proved: trace correspondence with pause/resume at random positions plus oracle (no creation while PAUSED on committed states; quiescent => final after resume).',
+    'level_text': 'Coq theorems (all programs/states/events/histories): no task execution is created while PAUSED by any event except resume, the pause is held, results are still recorded and final; a join-free run with pauses/resumes/stops anywhere never hangs; "resume reaches the same result as the unpaused run" is proved for join-free forward command-free definitions with constant guards (same executions per task, same final task states, same workflow state; C10_pause_resume_same_result_simple) and not proved beyond that class nor for the output, the pause clause over the execution tree is proved on Model/StopTree.v (every tree / address / state: closed form of the pause walk - exactly the RUNNING executions of the subtree become PAUSED, also below finished ones; after an accepted pause at any address the subtree of that execution is its paused form; the pause of the sub-workflow of one item, reported to a with-items task, comes down again to the sibling items whatever the task states are; finished executions are never touched) and tied to the engine by correspondence of every pause / resume request on generated call chains (depth 0-3, plain / with-items) plus the oracle "acknowledged => the execution and all unfinished executions below it PAUSED"; the other sub-workflow clauses are not proved: trace correspondence with pause/resume at random positions plus oracle (no creation while PAUSED on committed states; quiescent => final after resume).',
     'level_note': 'Model = control-flow core of the engine (one direct-workflow execution, action tasks, joins all/one/N, on-success/on-error/on-complete with guards whose value is part of the program, engine commands fail/succeed/pause/noop, operator pause/resume/stop/rerun/skip, duplicate deliveries). One event = one committed transaction (tx_lock); data flow, policies, with-items and sub-workflows are outside this model (component models / oracles). Trusted: the harness interception points (rpc client, executor, post_tx_queue threads, scheduler rows, clock, uuid source), view abstraction, Gen/States translator.',
     'technique': 'Coq per-step + history induction; trace correspondence with pause/resume injection; oracle',
     'design_ref': '6 C10, 4, 5',
